@@ -59,6 +59,8 @@ def bits(x) -> str:
 
 
 def float_of(s: str) -> float:
+    if s in ("inf", "-inf", "nan"):
+        return float(s)
     if "/" in s:
         a, b = s.split("/")
         return int(a) / int(b)
@@ -171,8 +173,9 @@ class C18(Prop):
 
     # --- generation --------------------------------------------------------------------------------------------
     LIMS = [0, 0, 1, 1, 2, 2, 3, 3, 4, 4, 5, 6, -1, -3]
-    DECAYS = ["1/10", "1/10", "0", "1/4", "1/2", "1", "2", "1/8", "3/10", "-1/4", "1/3"]
-    THRS = ["9/10", "9/10", "1/2", "1/2", "1/4", "0", "1", "2/3", "1/3", "3/4", "-1", "2", "7/10", "1/10"]
+    DECAYS = ["1/10", "1/10", "0", "1/4", "1/2", "1", "2", "1/8", "3/10", "-1/4", "1/3", "1/10", "1/4", "inf", "-inf", "nan"]
+    THRS = ["9/10", "9/10", "1/2", "1/2", "1/4", "0", "1", "2/3", "1/3", "3/4", "-1", "2", "7/10", "1/10", "9/10", "1/2",
+            "inf", "-inf", "nan"]
 
     def _heal_scripts(self, rng, mr, real, fam=None):
         n = max(mr, 0) + 3
